@@ -98,6 +98,9 @@ func (g *gen) pick(label string, xs ...string) string {
 	return rapid.SampledFrom(xs).Draw(g.t, label)
 }
 func (g *gen) coin(label string) bool { return rapid.Bool().Draw(g.t, label) }
+func (g *gen) pickInt(label string, xs ...int) int {
+	return rapid.SampledFrom(xs).Draw(g.t, label)
+}
 
 func (g *gen) field(kind, ctx string) int {
 	g.p.Fields = append(g.p.Fields, Field{kind, ctx})
@@ -315,7 +318,7 @@ func (g *gen) textChunk(b *strings.Builder) {
 }
 
 func (g *gen) item(b *strings.Builder, parent string, depth int) {
-	max := 13
+	max := 14
 	if depth >= g.o.MaxDepth {
 		max = 5
 	}
@@ -342,6 +345,8 @@ func (g *gen) item(b *strings.Builder, parent string, depth int) {
 		g.special(b)
 	case k == 10:
 		g.control(b, func(bb *strings.Builder) { g.content(bb, parent, depth+1) })
+	case k == 14:
+		g.openByControl(b)
 	case k == 11:
 		if len(g.p.Helpers) > 0 && !g.inHelper {
 			fmt.Fprintf(b, `{{template "h%d" $}}`, g.n(0, len(g.p.Helpers)-1, "callee"))
@@ -408,6 +413,35 @@ func (g *gen) control(b *strings.Builder, body func(*strings.Builder)) {
 	}
 }
 
+// openByControl: a control structure whose branches each open the same construct (a quoted attribute value, a tag)
+// and leave it open; the text after {{end}} completes it. With if / with the engine joins the branch contexts and
+// accepts; with range the loop re-entry check must refuse (the second iteration would start inside the construct).
+func (g *gen) openByControl(b *strings.Builder) {
+	elem := g.pick("oelem", "li", "b", "span", "p", "div", "a")
+	q := g.pick("oquote", `"`, `'`)
+	shape := g.n(0, 2, "oshape")
+	open := func(bb *strings.Builder) {
+		switch shape {
+		case 0:
+			bb.WriteString("<" + g.spell(elem) + " title=" + q)
+		case 1:
+			bb.WriteString("<" + g.spell(elem) + " ")
+		default:
+			bb.WriteString("<" + g.spell(elem) + " class=" + q + "c ")
+		}
+	}
+	g.control(b, open)
+	switch shape {
+	case 0, 2:
+		b.WriteString(g.action(g.field("str", "attr:None:"+elem+".openctl"), true) + q + ">")
+	default:
+		b.WriteString("title=" + q + g.action(g.field("str", "attr:None:"+elem+".openctl"), true) + q + ">")
+	}
+	g.textChunk(b)
+	b.WriteString("</" + elem + ">")
+	g.flag("open-by-control")
+}
+
 func (g *gen) element(b *strings.Builder, depth int) {
 	name := g.pick("elem", htmlContentElems...)
 	b.WriteString("<" + g.spell(name))
@@ -451,6 +485,13 @@ func (g *gen) special(b *strings.Builder) {
 	}
 	b.WriteString(">")
 	n := g.n(0, 3, "sitems")
+	if g.n(0, 19, "longrun") == 0 {
+		// letters whose lower-case form is longer in UTF-8, or invalid bytes, in bulk: index arithmetic on a
+		// case-folded copy of the text goes wrong only beyond some length
+		unit := g.pick("lunit", string(rune(0x23a)), string(rune(0x23e)), "\xff", string(rune(0x130)), string(rune(0x212a)))
+		b.WriteString(strings.Repeat(unit, g.pickInt("lrun", 1, 8, 25, 40, 100, 300)))
+		g.flag("long-run-in-special")
+	}
 	for i := 0; i < n; i++ {
 		switch name {
 		case "title", "textarea":
